@@ -24,4 +24,15 @@ def asyncio_call(ghost, name, args, kwargs, node):
 
 
 def await_value(ghost, v, node):
-    raise OutsideSubset("await is not modelled yet")
+    """sequential model of await: a coroutine object is run to completion in place
+    (cooperative scheduling: nothing else runs unless the awaited thing yields to the
+    loop, which only the loop primitives sleep/Event.wait/gather model do)"""
+    from .objects import CoroV
+
+    I = ghost.I
+    if isinstance(v, CoroV):
+        if v.started:
+            I.throw("RuntimeError", "cannot reuse already awaited coroutine", node=node)
+        v.started = True
+        return I.run_function(v.func, v.args, v.kwargs, node)
+    raise OutsideSubset(f"await of {type(v).__name__} at {I.where(node)}")
